@@ -185,28 +185,36 @@ def allReports (s : State) : List Report := allQ s.regs ++ s.handles
 structure SuspInv (s : State) : Prop where
   nodup : (tidsOf (allReports s)).Nodup
   lt : ∀ r ∈ allReports s, r.tid < s.nextT
-  mem_iff' : ∀ t, t ∈ s.suspended ↔ t ∈ heldTids (allReports s)
+  /-- parked = somebody holds the sender, and the call has not been abandoned -/
+  mem_iff' : ∀ t, t ∈ s.suspended ↔ t ∈ heldTids (allReports s) ∧ t ∉ s.abandoned
+  abLt : ∀ t ∈ s.abandoned, t < s.nextT
 
 theorem SuspInv.mem_iff {s : State} (h : SuspInv s) (t : Nat) :
-    t ∈ s.suspended ↔ t ∈ heldTids (allQ s.regs) ∨ t ∈ heldTids s.handles := by
+    t ∈ s.suspended ↔ (t ∈ heldTids (allQ s.regs) ∨ t ∈ heldTids s.handles) ∧ t ∉ s.abandoned := by
   rw [h.mem_iff' t, allReports, heldTids_append, List.mem_append]
 
 theorem SuspInv_init : SuspInv init :=
-  ⟨by simp [init, allReports, allQ, tidsOf], by simp [init, allReports, allQ], by simp [init, allReports, allQ, heldTids]⟩
+  ⟨by simp [init, allReports, allQ, tidsOf], by simp [init, allReports, allQ], by simp [init, allReports, allQ, heldTids],
+   by simp [init]⟩
+
+theorem lift_iff {A B C D : Prop} (hcore : (A ∧ C) ↔ D) : ((A ∧ B) ∧ C) ↔ (D ∧ B) :=
+  ⟨fun ⟨⟨a, b⟩, c⟩ => ⟨hcore.mp ⟨a, c⟩, b⟩, fun ⟨d, b⟩ => ⟨⟨(hcore.mpr d).1, b⟩, (hcore.mpr d).2⟩⟩
 
 /-- transfer along a permutation of the report multiset, same `nextT`, same `suspended`. -/
 theorem SuspInv.of_perm {s s' : State} (h : SuspInv s) (hp : (allReports s').Perm (allReports s))
-    (ht : s'.nextT = s.nextT) (hs : s'.suspended = s.suspended) : SuspInv s' := by
-  refine ⟨?_, ?_, ?_⟩
+    (ht : s'.nextT = s.nextT) (hs : s'.suspended = s.suspended) (hab : s'.abandoned = s.abandoned) : SuspInv s' := by
+  refine ⟨?_, ?_, ?_, ?_⟩
   · exact ((hp.map _).nodup_iff).mpr h.nodup
   · intro r hr; rw [ht]; exact h.lt r (hp.mem_iff.mp hr)
-  · intro t; rw [hs, h.mem_iff' t]; exact (heldTids_perm hp).mem_iff.symm
+  · intro t; rw [hs, h.mem_iff' t, hab, (heldTids_perm hp).mem_iff]
+  · intro t htm; rw [hab] at htm; rw [ht]; exact h.abLt t htm
 
 /-- adding a fresh report (tid = nextT). -/
 theorem SuspInv.add {s s' : State} (h : SuspInv s) (r : Report) (hr : r.tid = s.nextT)
     (hp : (allReports s').Perm (r :: allReports s)) (ht : s'.nextT = s.nextT + 1)
-    (hs : s'.suspended = if r.holds then s.suspended ++ [r.tid] else s.suspended) : SuspInv s' := by
-  refine ⟨?_, ?_, ?_⟩
+    (hs : s'.suspended = if r.holds then s.suspended ++ [r.tid] else s.suspended)
+    (hab : s'.abandoned = s.abandoned) : SuspInv s' := by
+  refine ⟨?_, ?_, ?_, fun t htm => by rw [hab] at htm; rw [ht]; exact Nat.lt_succ_of_lt (h.abLt t htm)⟩
   · apply ((hp.map _).nodup_iff).mpr
     simp only [List.map_cons, List.nodup_cons]
     refine ⟨?_, h.nodup⟩
@@ -220,22 +228,28 @@ theorem SuspInv.add {s s' : State} (h : SuspInv s) (r : Report) (hr : r.tid = s.
     · omega
     · exact Nat.lt_succ_of_lt (h.lt x hx')
   · intro t
-    rw [(heldTids_perm hp).mem_iff, hs]
+    rw [(heldTids_perm hp).mem_iff, hs, hab]
+    have hfresh : r.tid ∉ s.abandoned := fun hm => by have := h.abLt _ hm; omega
     cases hh : r.holds with
     | true =>
       simp only [if_true, List.mem_append, List.mem_singleton, h.mem_iff' t]
       simp only [heldTids, List.filter_cons, hh, if_true, List.map_cons, List.mem_cons]
       constructor
-      · rintro (h1 | h1); exact Or.inr h1; exact Or.inl h1
-      · rintro (h1 | h1); exact Or.inr h1; exact Or.inl h1
+      · rintro (h1 | h1)
+        · exact ⟨Or.inr h1.1, h1.2⟩
+        · exact ⟨Or.inl h1, h1 ▸ hfresh⟩
+      · rintro ⟨h1 | h1, h2⟩
+        · exact Or.inr h1
+        · exact Or.inl ⟨h1, h2⟩
     | false =>
       simp only [Bool.false_eq_true, if_false, h.mem_iff' t]
       simp [heldTids, hh]
 
 theorem SuspInv.bump {s s' : State} (h : SuspInv s) (hr : allReports s' = allReports s)
-    (ht : s.nextT ≤ s'.nextT) (hs : s'.suspended = s.suspended) : SuspInv s' :=
+    (ht : s.nextT ≤ s'.nextT) (hs : s'.suspended = s.suspended) (hab : s'.abandoned = s.abandoned) : SuspInv s' :=
   ⟨by rw [hr]; exact h.nodup, fun r hrm => Nat.lt_of_lt_of_le (h.lt r (hr ▸ hrm)) ht,
-   fun t => by rw [hs, hr]; exact h.mem_iff' t⟩
+   fun t => by rw [hs, hr, hab]; exact h.mem_iff' t,
+   fun t htm => Nat.lt_of_lt_of_le (h.abLt t (hab ▸ htm)) ht⟩
 
 theorem SuspInv_step {s : State} (hw : WF s) (h : SuspInv s) (op : Op) : SuspInv (step s op).1 := by
   have hnd : (ids s.regs).Nodup := by
@@ -243,45 +257,45 @@ theorem SuspInv_step {s : State} (hw : WF s) (h : SuspInv s) (op : Op) : SuspInv
     exact this.imp (fun hab => Nat.ne_of_lt hab)
   cases op with
   | build r c =>
-    exact h.bump (by simp [step, allReports, allQ_append_fresh]) (Nat.le_refl _) rfl
+    exact h.bump (by simp [step, allReports, allQ_append_fresh]) (Nat.le_refl _) rfl rfl
   | trigger ev =>
     show SuspInv (stepTrigger s ev).1
     cases hfm : firstMatch s.regs ev with
-    | none => rw [stepTrigger_none hfm]; exact h.bump rfl (Nat.le_succ _) rfl
+    | none => rw [stepTrigger_none hfm]; exact h.bump rfl (Nat.le_succ _) rfl rfl
     | some e =>
       have hmem : e.id ∈ ids s.regs := isLive_iff.mp (firstMatch_live hfm)
       cases hr : e.reaction with
       | noop =>
         rw [stepTrigger_noop hfm hr]
-        refine h.add ⟨s.nextT, ev, false⟩ rfl ?_ rfl (by simp)
+        refine h.add ⟨s.nextT, ev, false⟩ rfl ?_ rfl (by simp) rfl
         simp only [allReports]
         exact (List.Perm.append_right _ (allQ_enqueue s.regs hnd hmem))
       | suspend =>
         rw [stepTrigger_suspend hfm hr]
-        refine h.add ⟨s.nextT, ev, true⟩ rfl ?_ rfl (by simp)
+        refine h.add ⟨s.nextT, ev, true⟩ rfl ?_ rfl (by simp) rfl
         simp only [allReports]
         exact (List.Perm.append_right _ (allQ_enqueue s.regs hnd hmem))
-      | panic => rw [stepTrigger_panic hfm hr]; exact h.bump rfl (Nat.le_succ _) rfl
+      | panic => rw [stepTrigger_panic hfm hr]; exact h.bump rfl (Nat.le_succ _) rfl rfl
   | triggerNoop ev =>
     show SuspInv (stepTriggerNoop s ev).1
     cases hfm : firstMatch s.regs ev with
-    | none => rw [stepTriggerNoop_none hfm]; exact h.bump rfl (Nat.le_succ _) rfl
+    | none => rw [stepTriggerNoop_none hfm]; exact h.bump rfl (Nat.le_succ _) rfl rfl
     | some e =>
       have hmem : e.id ∈ ids s.regs := isLive_iff.mp (firstMatch_live hfm)
       cases hr : e.reaction with
       | noop =>
         rw [stepTriggerNoop_noop hfm hr]
-        refine h.add ⟨s.nextT, ev, false⟩ rfl ?_ rfl (by simp)
+        refine h.add ⟨s.nextT, ev, false⟩ rfl ?_ rfl (by simp) rfl
         simp only [allReports]
         exact (List.Perm.append_right _ (allQ_enqueue s.regs hnd hmem))
-      | suspend => rw [stepTriggerNoop_suspend hfm hr]; exact h.bump rfl (Nat.le_succ _) rfl
-      | panic => rw [stepTriggerNoop_panic hfm hr]; exact h.bump rfl (Nat.le_succ _) rfl
+      | suspend => rw [stepTriggerNoop_suspend hfm hr]; exact h.bump rfl (Nat.le_succ _) rfl rfl
+      | panic => rw [stepTriggerNoop_panic hfm hr]; exact h.bump rfl (Nat.le_succ _) rfl rfl
   | wait b =>
     cases hq : queueOf b s.regs with
     | nil => rw [step_wait_nil hq]; exact h
     | cons r q =>
       rw [step_wait_cons hq]
-      refine h.of_perm ?_ rfl rfl
+      refine h.of_perm ?_ rfl rfl rfl
       simp only [allReports]
       have hp := allQ_popFront s.regs hnd hq
       -- allQ (popFront) ++ (handles ++ [r]) ~ (r :: allQ popFront) ++ handles ~ allQ regs ++ handles
@@ -296,9 +310,13 @@ theorem SuspInv_step {s : State} (hw : WF s) (h : SuspInv s) (op : Op) : SuspInv
         (allReports s) := by
       simp only [allReports]
       exact List.Sublist.append (List.Sublist.refl _) List.filter_sublist
-    refine ⟨List.Nodup.sublist (hsub.map _) h.nodup, fun r hr => h.lt r (hsub.subset hr), ?_⟩
+    refine ⟨List.Nodup.sublist (hsub.map _) h.nodup, fun r hr => h.lt r (hsub.subset hr), ?_, h.abLt⟩
     intro x
-    simp only [mem_without, h.mem_iff' x, allReports, heldTids_append, List.mem_append]
+    show x ∈ without s.suspended (heldTids (s.handles.filter (fun r => r.tid == t))) ↔
+      x ∈ heldTids (allQ s.regs ++ s.handles.filter (fun r => r.tid != t)) ∧ x ∉ s.abandoned
+    rw [mem_without, h.mem_iff' x]
+    apply lift_iff
+    simp only [allReports, heldTids_append, List.mem_append]
     constructor
     · rintro ⟨hx, hnrel⟩
       rcases hx with hx | hx
@@ -325,6 +343,38 @@ theorem SuspInv_step {s : State} (hw : WF s) (h : SuspInv s) (op : Op) : SuspInv
         · obtain ⟨r, hr, _, hrt⟩ := mem_heldTids.mp hx
           have : r.tid ≠ t := by simpa using (List.mem_filter.mp hr).2
           exact this (by rw [hrt, ← hrt', hr'tid])
+  | abandon t =>
+    refine ⟨h.nodup, h.lt, ?_, ?_⟩
+    · intro x
+      show x ∈ s.suspended.filter (fun y => y != t) ↔
+        x ∈ heldTids (allReports s) ∧ x ∉ (if s.suspended.contains t then s.abandoned ++ [t] else s.abandoned)
+      rw [List.mem_filter, h.mem_iff' x]
+      by_cases hc : s.suspended.contains t = true
+      · simp only [hc, if_true, List.mem_append, List.mem_singleton, not_or, bne_iff_ne, ne_eq]
+        constructor
+        · rintro ⟨⟨a, b⟩, c⟩; exact ⟨a, b, c⟩
+        · rintro ⟨a, b, c⟩; exact ⟨⟨a, b⟩, c⟩
+      · have hnt : t ∉ s.suspended := by simpa using hc
+        simp only [hc, Bool.false_eq_true, if_false, bne_iff_ne, ne_eq]
+        constructor
+        · rintro ⟨⟨a, b⟩, _⟩; exact ⟨a, b⟩
+        · rintro ⟨a, b⟩
+          refine ⟨⟨a, b⟩, ?_⟩
+          intro hxt
+          exact hnt (hxt ▸ (h.mem_iff' x).mpr ⟨a, b⟩)
+    · intro x hx
+      show x < s.nextT
+      have hx : x ∈ (if s.suspended.contains t then s.abandoned ++ [t] else s.abandoned) := hx
+      by_cases hc : s.suspended.contains t = true
+      · rw [if_pos hc] at hx
+        simp only [List.mem_append, List.mem_singleton] at hx
+        rcases hx with hx | rfl
+        · exact h.abLt x hx
+        · have hts : x ∈ s.suspended := by simpa using hc
+          obtain ⟨r, hr, _, hrt⟩ := mem_heldTids.mp ((h.mem_iff' x).mp hts).1
+          rw [← hrt]; exact h.lt r hr
+      · rw [if_neg hc] at hx
+        exact h.abLt x hx
   | dropBarrier b =>
     cases hl : isLive b s.regs with
     | false => rw [step_dropBarrier_dead hl]; exact h
@@ -335,7 +385,7 @@ theorem SuspInv_step {s : State} (hw : WF s) (h : SuspInv s) (op : Op) : SuspInv
         rw [← List.append_assoc]; exact List.Perm.append_right _ hp
       have hnd' : (tidsOf (queueOf b s.regs ++ (allQ (removeId b s.regs) ++ s.handles))).Nodup :=
         ((hperm.map _).nodup_iff).mpr h.nodup
-      refine ⟨?_, ?_, ?_⟩
+      refine ⟨?_, ?_, ?_, h.abLt⟩
       · simp only [allReports]
         exact List.Nodup.sublist ((List.sublist_append_right _ _).map _) hnd'
       · intro r hr
@@ -345,8 +395,10 @@ theorem SuspInv_step {s : State} (hw : WF s) (h : SuspInv s) (op : Op) : SuspInv
             x ∈ heldTids (queueOf b s.regs) ∨ x ∈ heldTids (allQ (removeId b s.regs) ++ s.handles) := by
           rw [← (heldTids_perm hperm).mem_iff, heldTids_append, List.mem_append]
         show x ∈ without s.suspended (heldTids (queueOf b s.regs)) ↔
-            x ∈ heldTids (allQ (removeId b s.regs) ++ s.handles)
-        rw [mem_without, h.mem_iff' x, hsplit]
+            x ∈ heldTids (allQ (removeId b s.regs) ++ s.handles) ∧ x ∉ s.abandoned
+        rw [mem_without, h.mem_iff' x]
+        apply lift_iff
+        rw [hsplit]
         constructor
         · rintro ⟨hx | hx, hnrel⟩
           · exact absurd hx hnrel
@@ -409,14 +461,18 @@ theorem queueOf_subset_allQ (b : Nat) : ∀ (regs : List Entry), ∀ r ∈ queue
     · exact Or.inl h
     · exact Or.inr (queueOf_subset_allQ b es r h)
 
+theorem mem_stillParked {x : Nat} {susp rel : List Nat} : x ∈ stillParked susp rel ↔ x ∈ rel ∧ x ∈ susp := by
+  simp [stillParked, List.mem_filter]
+
 theorem susp_step {s : State} (hs : Reachable s) (op : Op) :
     (∀ t ∈ (step s op).2.resumed, t ∈ s.suspended ∧ t ∉ (step s op).1.suspended) ∧
-    (∀ t ∈ s.suspended, t ∉ (step s op).2.resumed → t ∈ (step s op).1.suspended) ∧
+    (∀ t ∈ s.suspended, t ∉ (step s op).2.resumed → op ≠ .abandon t → t ∈ (step s op).1.suspended) ∧
     ((step s op).2.resumed ≠ [] → (∃ t, op = .dropHandle t) ∨ (∃ b, op = .dropBarrier b)) ∧
-    (∀ t, op = .dropHandle t → ((step s op).2.resumed = [t] ↔ t ∈ heldTids s.handles) ∧
-                                 ((step s op).2.resumed = [] ↔ t ∉ heldTids s.handles)) ∧
+    (∀ t, op = .dropHandle t →
+        ((step s op).2.resumed = [t] ↔ t ∈ heldTids s.handles ∧ t ∈ s.suspended) ∧
+        ((step s op).2.resumed = [] ↔ ¬ (t ∈ heldTids s.handles ∧ t ∈ s.suspended))) ∧
     (∀ b, op = .dropBarrier b → isLive b s.regs = true →
-        (step s op).2.resumed = heldTids (queueOf b s.regs)) := by
+        (step s op).2.resumed = stillParked s.suspended (heldTids (queueOf b s.regs))) := by
   have hI := susp_inv hs
   have hndH : (tidsOf s.handles).Nodup := by
     have := hI.nodup
@@ -428,7 +484,7 @@ theorem susp_step {s : State} (hs : Reachable s) (op : Op) :
     have h1 := stepTrigger_resumed s ev
     refine ⟨?_, ?_, ?_, ?_, ?_⟩
     · intro t ht; simp [step, h1] at ht
-    · intro t ht _; exact stepTrigger_keeps s ev t ht
+    · intro t ht _ _; exact stepTrigger_keeps s ev t ht
     · intro hne; exact absurd h1 hne
     · intro t ht; cases ht
     · intro b hb; cases hb
@@ -436,52 +492,66 @@ theorem susp_step {s : State} (hs : Reachable s) (op : Op) :
     have h1 := stepTriggerNoop_resumed s ev
     refine ⟨?_, ?_, ?_, ?_, ?_⟩
     · intro t ht; simp [step, h1] at ht
-    · intro t ht _; show t ∈ (stepTriggerNoop s ev).1.suspended; rw [stepTriggerNoop_keeps]; exact ht
+    · intro t ht _ _; show t ∈ (stepTriggerNoop s ev).1.suspended; rw [stepTriggerNoop_keeps]; exact ht
     · intro hne; exact absurd h1 hne
     · intro t ht; cases ht
     · intro b hb; cases hb
   | wait b =>
     simp only [step]
     cases queueOf b s.regs <;> simp
+  | abandon t =>
+    refine ⟨by intro x hx; simp [step] at hx, ?_, by intro h; simp [step] at h, ?_, ?_⟩
+    rotate_left
+    · intro t' h; cases h
+    · intro b h; cases h
+    intro x hx _ hne
+    show x ∈ s.suspended.filter (fun y => y != t)
+    refine List.mem_filter.mpr ⟨hx, ?_⟩
+    simp only [bne_iff_ne, ne_eq]
+    intro hxt; exact hne (hxt ▸ rfl)
   | dropHandle t =>
     have hrel := heldTids_filter_tid (t := t) s.handles hndH
     refine ⟨?_, ?_, ?_, ?_, ?_⟩
     · intro x hx
       simp only [step] at hx ⊢
-      refine ⟨?_, fun hc => (mem_without.mp hc).2 hx⟩
-      obtain ⟨r, hr, hrh, hrt⟩ := mem_heldTids.mp hx
-      exact (hI.mem_iff x).mpr (Or.inr (mem_heldTids.mpr ⟨r, (List.mem_filter.mp hr).1, hrh, hrt⟩))
-    · intro x hx hnx
+      have hx' := mem_stillParked.mp hx
+      exact ⟨hx'.2, fun hc => (mem_without.mp hc).2 hx'.1⟩
+    · intro x hx hnx _
       simp only [step] at hnx ⊢
-      exact mem_without.mpr ⟨hx, hnx⟩
+      refine mem_without.mpr ⟨hx, ?_⟩
+      intro hrelx
+      exact hnx (mem_stillParked.mpr ⟨hrelx, hx⟩)
     · intro _; exact Or.inl ⟨t, rfl⟩
     · intro t' ht'
       injection ht' with ht'; subst ht'
       simp only [step, hrel]
-      by_cases hm : t ∈ heldTids s.handles <;> simp [hm]
+      by_cases hm : t ∈ heldTids s.handles
+      · by_cases hsu : t ∈ s.suspended
+        · simp [hm, hsu, stillParked]
+        · simp [hm, hsu, stillParked]
+      · simp [hm, stillParked]
     · intro b hb; cases hb
   | dropBarrier b =>
     refine ⟨?_, ?_, ?_, ?_, ?_⟩
     · intro x hx
-      simp only [step] at hx ⊢
       cases hl : isLive b s.regs with
-      | false => simp [hl] at hx
+      | false => rw [step_dropBarrier_dead hl] at hx; cases hx
       | true =>
-        simp only [hl, if_true] at hx ⊢
-        refine ⟨?_, fun hc => (mem_without.mp hc).2 hx⟩
-        obtain ⟨r, hr, hrh, hrt⟩ := mem_heldTids.mp hx
-        exact (hI.mem_iff x).mpr (Or.inl (mem_heldTids.mpr ⟨r, queueOf_subset_allQ b s.regs r hr, hrh, hrt⟩))
-    · intro x hx hnx
-      simp only [step] at hnx ⊢
+        rw [step_dropBarrier_live hl] at hx ⊢
+        have hx' := mem_stillParked.mp hx
+        exact ⟨hx'.2, fun hc => (mem_without.mp hc).2 hx'.1⟩
+    · intro x hx hnx _
       cases hl : isLive b s.regs with
-      | false => simpa [hl] using hx
+      | false => rw [step_dropBarrier_dead hl]; exact hx
       | true =>
-        simp only [hl, if_true] at hnx ⊢
-        exact mem_without.mpr ⟨hx, hnx⟩
+        rw [step_dropBarrier_live hl] at hnx ⊢
+        refine mem_without.mpr ⟨hx, ?_⟩
+        intro hrelx
+        exact hnx (mem_stillParked.mpr ⟨hrelx, hx⟩)
     · intro _; exact Or.inr ⟨b, rfl⟩
     · intro t ht; cases ht
     · intro b' hb' hl
       injection hb' with hb'; subst hb'
-      simp [step, hl]
+      rw [step_dropBarrier_live hl]
 
 end TV.Barrier
